@@ -68,6 +68,9 @@ pub fn shapes_part() -> BoxedStrategy<StrCase> {
     (lit.clone(), prop::collection::vec(piece, 1..=3), lit, 0u8..3, gen::flags_strategy("ims"), gen::raw_inputs(4, 8))
         .prop_map(|(pre, pieces, post, outer, flags, raw)| {
             // a leading group so that back-references are legal
+            // under an outer quantifier only one quantified piece: nested nullable loops in sequence make this
+            // engine's (finite) backtracking explode, which bounded observation cannot tell from a hang
+            let pieces: Vec<String> = if outer == 0 { pieces.into_iter().take(2).collect() } else { pieces.into_iter().take(1).collect() };
             let core = format!("{pre}{}{post}", pieces.join(""));
             let core = if core.contains("\\1") && !core[..core.find("\\1").unwrap()].contains("(a)") && !core[..core.find("\\1").unwrap()].contains("(b)?") {
                 format!("(a?){core}")
@@ -88,10 +91,11 @@ pub fn shapes_part() -> BoxedStrategy<StrCase> {
 }
 
 const B1_MS: u64 = 500;
-const B2_MS: u64 = 5000;
+const B2_MS: u64 = 20000;
 /// a prefix that terminates in less than this, while one more character does not terminate within B2,
-/// is not explained by exponential backtracking (growth > 500x per character)
-const FAST_US: u64 = 10_000;
+/// is not explained by exponential backtracking (growth > 10^4 per character; the steepest finite blow-up
+/// seen on this engine, nested nullable loops, was about 3*10^3)
+const FAST_US: u64 = 2_000;
 
 fn judge_outcome(case: &StrCase, out: &Outcome, ctx: &mut Ctx) -> Option<String> {
     for (i, io) in out.per_input.iter().enumerate() {
@@ -123,7 +127,7 @@ fn judge_outcome(case: &StrCase, out: &Outcome, ctx: &mut Ctx) -> Option<String>
 
 /// Decide whether a call that exceeded the budget is non-termination or (finite) exponential backtracking.
 /// Delete single characters from the input for as long as some deletion still exceeds the budget; on the
-/// minimal such input, if every single-character deletion returns quickly, the jump (> 500x for one character)
+/// minimal such input, if every single-character deletion returns quickly, the jump (> 10^4 for one character)
 /// is not explained by exponential growth and the call is judged non-terminating.
 fn confirm_hang(case: &StrCase, input: &str, ctx: &mut Ctx) -> Option<String> {
     let mut cur: Vec<char> = input.chars().collect();
@@ -241,7 +245,7 @@ impl Prop for C06 {
         60
     }
     fn rule(&self) -> String {
-        "evaluation = one API call (is_match, replace_all, tokenize and analyze driven to exhaustion plus three extra next() calls) under a CPU-time watchdog; non-trivial = compiled pattern from the quantifier-heavy generators on a non-empty input; distinct = distinct (pattern, flags, input). Bounded observation: a call counts as non-terminating when it exceeds 0.5 s of CPU with all inputs, then 5 s with that input alone, and, on the minimal input still exceeding it, every single-character deletion returns in < 10 ms (so exponential but finite backtracking, which grows by a bounded factor per character, is not reported); normal cost < 1 ms, the maximum seen is reported as max_job_wall_us".into()
+        "evaluation = one API call (is_match, replace_all, tokenize and analyze driven to exhaustion plus three extra next() calls) under a CPU-time watchdog; non-trivial = compiled pattern from the quantifier-heavy generators on a non-empty input; distinct = distinct (pattern, flags, input). Bounded observation: a call counts as non-terminating when it exceeds 0.5 s of CPU with all inputs, then 20 s with that input alone, and, on the minimal input still exceeding it, every single-character deletion returns in < 2 ms (so exponential but finite backtracking, which grows by a bounded factor per character, is not reported); normal cost < 1 ms, the maximum seen is reported as max_job_wall_us".into()
     }
     fn guards(&self) -> Vec<Guard> {
         vec![Guard { label: "compile=ok".into(), of: "".into(), min_fraction: 0.5 }, Guard { label: "tokenize=ok".into(), of: "".into(), min_fraction: 0.2 }]
